@@ -4,8 +4,8 @@ From Coq Require Import List NArith ZArith Bool.
 Import ListNotations.
 
 (** Bytes are naturals (the theorems do not need the bound 256), keys are byte strings. *)
-Definition byte := N.
-Definition key := list byte.
+Notation byte := N (only parsing).
+Notation key := (list N) (only parsing).
 
 (** Go's native string order: lexicographic on bytes, a proper prefix is smaller. *)
 Fixpoint lex_cmp (a b : key) : comparison :=
